@@ -1,6 +1,7 @@
 package main
 
 import (
+	"sort"
 	"go/constant"
 	"fmt"
 	"go/token"
@@ -396,6 +397,104 @@ func runC13(e *Engine, r *Report, tier string) {
 		r.Fail("R2", "bonding functions", "", fmt.Sprintf("UNRESOLVED-ANCHOR: %d functions delegate and record an oracle (bond, add-delegate expected)", nbond))
 	}
 
+	// --- R4 unbond: the penalty leaves the delegate account once
+	// payout = (balance of the delegate account) - penalty is right only for a balance read *before* the penalty was taken
+	// out of that account; a balance read after the debit already lacks it.
+	if unbond != nil {
+		fnU := unbond.fn
+		var debit, payout ssa.CallInstruction
+		allCalls(fnU, func(c ssa.CallInstruction) {
+			switch callName(c) {
+			case "SendCoinsFromAccountToModule":
+				debit = c
+			case "SendCoins":
+				payout = c
+			}
+		})
+		ck := e.CanonFnKey(fnU) + " payout"
+		if debit == nil || payout == nil {
+			r.Fail("R4", ck, e.Pos(fnU.Pos()), "UNRESOLVED-ANCHOR: penalty debit or payout not found in the unbond routine")
+		} else {
+			var pen, out ssa.Value
+			for _, a := range debit.Common().Args {
+				if isCoinsType(a.Type()) {
+					pen = a
+				}
+			}
+			for _, a := range payout.Common().Args {
+				if isCoinsType(a.Type()) {
+					out = a
+				}
+			}
+			var bal *ssa.Call
+			subPen := false
+			seenW := map[ssa.Value]bool{}
+			var walkOut func(v ssa.Value, d int)
+			walkOut = func(v ssa.Value, d int) {
+				if v == nil || d > 14 || seenW[v] {
+					return
+				}
+				seenW[v] = true
+				switch x := v.(type) {
+				case *ssa.Phi:
+					for _, ed := range x.Edges {
+						walkOut(ed, d+1)
+					}
+				case *ssa.Slice:
+					walkOut(x.X, d+1)
+				case *ssa.ChangeType:
+					walkOut(x.X, d+1)
+				case *ssa.Convert:
+					walkOut(x.X, d+1)
+				case *ssa.UnOp:
+					if al, ok := x.X.(*ssa.Alloc); ok {
+						for _, ref := range *al.Referrers() {
+							if st, ok := ref.(*ssa.Store); ok && st.Addr == ssa.Value(al) {
+								walkOut(st.Val, d+1)
+							}
+						}
+					}
+				case *ssa.Call:
+					if b, ok := x.Call.Value.(*ssa.Builtin); ok && b.Name() == "append" {
+						walkOut(x.Call.Args[0], d+1)
+						return
+					}
+					switch callName(x) {
+					case "GetAllBalances", "GetBalance", "SpendableCoins":
+						bal = x
+					case "Sub", "SafeSub":
+						as := callArgs(x)
+						if len(as) >= 2 && pen != nil && coinsKey(as[1]) != "" && coinsKey(as[1]) == coinsKey(pen) {
+							subPen = true
+						}
+						if len(as) >= 1 {
+							walkOut(as[0], d+1)
+						}
+					case "NewCoins", "Add", "Sort":
+						for _, a := range callArgs(x) {
+							walkOut(a, d+1)
+						}
+					}
+				case *ssa.Extract:
+					walkOut(x.Tuple, d+1)
+				}
+			}
+			walkOut(out, 0)
+			switch {
+			case bal == nil || pen == nil:
+				r.Fail("R4", ck, e.InstrPos(payout), "UNRESOLVED-ANCHOR: the paid-out amount is not derived from a balance of the delegate account")
+			case Dominates(bal, debit) && subPen:
+				r.Ok("R4", ck, e.InstrPos(payout), "payout = balance read before the penalty debit, minus the penalty")
+			case Dominates(bal, debit) && !subPen:
+				r.Fail("R4", ck, e.InstrPos(payout), "the payout is the whole balance read before the penalty was taken out of the delegate account: the transfer exceeds what is left (the penalty is not charged, or the unbond can never succeed)")
+			case subPen:
+				r.Fail("R4", ck, e.InstrPos(payout), "the penalty is subtracted from a balance that was read after the penalty had already been taken out of the delegate account: it is charged twice (one part burned, one part stranded in the delegate account; with a fraction above 50% the subtraction panics and the stake can never be withdrawn)")
+			default:
+				r.Ok("R4", ck, e.InstrPos(payout), "payout = what is left in the delegate account after the penalty debit")
+			}
+		}
+	}
+
 	// --- R4 clamp shape
 	gs := e.Method("x/crosschain/types", "Oracle", "GetSlashAmount")
 	if gs == nil {
@@ -768,4 +867,18 @@ func stripString(v ssa.Value) ssa.Value {
 		}
 		return v
 	}
+}
+
+// coinsKey: the structural key of a coins expression (its terms), "" when it has no recognisable form.
+func coinsKey(v ssa.Value) string {
+	ts, ok := coinsTerms(v)
+	if !ok || len(ts) == 0 {
+		return ""
+	}
+	var ks []string
+	for _, t := range ts {
+		ks = append(ks, fmt.Sprint(t))
+	}
+	sort.Strings(ks)
+	return strings.Join(ks, "+")
 }
